@@ -24,6 +24,8 @@ def main():
             continue
         r = res[v.vid]
         want = 0 if (v.kind == "twin" or v.note.startswith("recorded miss")) else 1
+        if v.note.startswith("recorded miss") and r["code"] == 2:
+            continue  # "cannot decide" on a recorded miss: not a VIOLATION, not silent either (round9 C01a, C08b)
         if r["code"] != want:
             bad += 1
             print(f"UNEXPECTED {v.prop} {v.vid} kind={v.kind} exit={r['code']} {r['samples'][:1]} {r['errors'][:1]}")
